@@ -24,7 +24,7 @@ FORBIDDEN = re.compile(r'\b(sorry|admit|native_decide|bv_decide|implemented_by|u
 NCPU = os.cpu_count() or 4
 PROBE_TIMEOUT = [300]   # seconds per shard; bin/check raises it for the thorough tier
 
-GOENV = dict(os.environ, GORACE='halt_on_error=1 exitcode=66', GOFLAGS='-mod=mod', GOPROXY='off', GOSUMDB='off', GOTOOLCHAIN='local',
+GOENV = dict(os.environ, **({'GOCOVERDIR': os.environ['VERIF_COVER']} if os.environ.get('VERIF_COVER') else {}), GORACE='halt_on_error=1 exitcode=66', GOFLAGS='-mod=mod', GOPROXY='off', GOSUMDB='off', GOTOOLCHAIN='local',
              CGO_CFLAGS='-w', GOMEMLIMIT='4GiB')
 
 
@@ -52,7 +52,8 @@ def build_harness(pkgs=None):
     if pkgs:
         pkgs = [p for p in pkgs if not p.endswith('.race')]
     targets = ['./cmd/' + p for p in pkgs] if pkgs else ['./cmd/...']
-    r = run(['go', 'build', '-tags', 'verif', '-o', BIN + '/'] + targets, cwd=HARN, env=GOENV, timeout=1500)
+    cover = ['-cover', '-coverpkg=gopkg.in/src-d/hercules.v10/...'] if os.environ.get('VERIF_COVER') else []
+    r = run(['go', 'build'] + cover + ['-tags', 'verif', '-o', BIN + '/'] + targets, cwd=HARN, env=GOENV, timeout=1500)
     out = r.stdout.decode(errors='replace')
     for p in race:
         # the same probe with the race detector: a data race in the real code ends the case (exit code 66)
